@@ -873,6 +873,7 @@ fn crank_case(s: &Scen, rng: &mut Rng) -> Option<String> {
             _ => {}
         }
     }
+    let mut foreign = false;
     for _ in 0..(if rng.chance(2, 3) { 0 } else { 1 + rng.below(2) }) {
         match rng.below(3) {
             0 => {
@@ -883,6 +884,7 @@ fn crank_case(s: &Scen, rng: &mut Rng) -> Option<String> {
                 let mut bk = w.bank(&h.bank);
                 bk.group = w.new_key();
                 w.set_bank(&h.bank, &bk);
+                foreign = true;
             }
             _ => {
                 let mut bk = w.bank(&h.bank);
@@ -897,6 +899,8 @@ fn crank_case(s: &Scen, rng: &mut Rng) -> Option<String> {
     if !collect {
         let (head, _keys) = context_line(s, &w, "wd.accrue", &acct_key, &h, signer, h.liquidity_vault, 0, false);
         return match w.exec(&ix::accrue(&h)) {
+            // (written from the property text, not from the table: a crank must not run a bank under another group's settings)
+            Ok(()) if foreign => Some(format!("{} => ok accepted-with-foreign-group", head)),
             Ok(()) => {
                 let bank1 = w.bank(&h.bank);
                 Some(format!("{} => ok {} {}", head, B::from_bank(&bank1).line(), bank1.last_update))
@@ -906,16 +910,34 @@ fn crank_case(s: &Scen, rng: &mut Rng) -> Option<String> {
             Err(_) => None,
         };
     }
-    let right = w.ata(&s.fee_wallet, &h.mint);
-    if w.get(&right).is_none() { w.add_ata(s.fee_wallet, h.mint, 0); }
-    let ata_ok = rng.chance(7, 8);
-    let fee_ata = if ata_ok { right } else { w.add_token_account(h.mint, s.users[0].wallet, 0) };
+    // the global fee wallet was rotated in the fee state and nobody propagated it to the group yet (now and then): the
+    // destination is the LIVE wallet's token account, whatever copy of it the group still carries
+    let mut live_wallet = s.fee_wallet;
+    if rng.chance(1, 4) {
+        let (fs_key, _) = crate::world::fixtures::fee_state_pda();
+        let mut fs = w.fee_state(&fs_key);
+        live_wallet = w.add_wallet(0);
+        fs.global_fee_wallet = live_wallet;
+        w.set_fee_state(&fs_key, &fs);
+    }
+    let right = w.ata(&live_wallet, &h.mint);
+    if w.get(&right).is_none() { w.add_ata(live_wallet, h.mint, 0); }
+    let stale = w.ata(&s.fee_wallet, &h.mint);
+    if w.get(&stale).is_none() { w.add_ata(s.fee_wallet, h.mint, 0); }
+    let fee_ata = match rng.below(8) {
+        0 => w.add_token_account(h.mint, s.users[0].wallet, 0),
+        1 | 2 => stale,
+        _ => right,
+    };
+    let ata_ok = fee_ata == right;
     let (head, _keys) = context_line(s, &w, "wd.collect", &acct_key, &h, signer, h.liquidity_vault, ata_ok as i128, false);
     let (i0, f0, p0) = (w.token_amount(&h.insurance_vault), w.token_amount(&h.fee_vault), w.token_amount(&fee_ata));
     let v0 = w.token_amount(&h.liquidity_vault);
     // (a transfer-fee mint delivers less than it takes: what LEAVES the liquidity vault is compared, per destination, on plain mints only)
     if w.transfer_fee_in_force(&h.mint) != (0, 0) { return None; }
     match w.exec(&ix::collect_fees(&h, fee_ata)) {
+        Ok(()) if foreign => Some(format!("{} => ok accepted-with-foreign-group", head)),
+        Ok(()) if !ata_ok => Some(format!("{} => ok accepted-with-wrong-fee-ata", head)),
         Ok(()) => {
             let bank1 = w.bank(&h.bank);
             let (di, df, dp) = (w.token_amount(&h.insurance_vault) - i0, w.token_amount(&h.fee_vault) - f0, w.token_amount(&fee_ata) - p0);
